@@ -244,6 +244,15 @@ impl ParseState {
                 }
                 Item::ArrayOfTables(ref mut array) => {
                     debug_assert!(!array.is_empty());
+                    if dotted && i + 1 < path.len() {
+                        // A dotted key may not reach through an array of tables to
+                        // extend its last element (the single-segment case is rejected
+                        // by the caller's mixed-table-types check).
+                        return Err(CustomError::DuplicateKey {
+                            key: key.get().into(),
+                            table: None,
+                        });
+                    }
 
                     let index = array.len() - 1;
                     let last_child = array.get_mut(index).unwrap();
